@@ -8,7 +8,7 @@ cell.go sharedStringsLoader, rows.go getFromStringItem / Rows, file.go Close /
 writeToZip) defined over the regenerated facts `Facts.C12`; `facts_ok` pins
 the facts the proofs were written for.
 -/
-import XlModel.Lemmas.Store9
+import XlModel.Lemmas.Store11
 import XlModel.Lemmas.Sst
 
 namespace XlModel.Props.C12
@@ -332,11 +332,78 @@ theorem string_read_independent (st : Sst.St) (i : Sst.Inv st) (n : Nat) :
     (Sst.getStr (Sst.sstRead st) n).2 = (((Sst.abs st)[n]?).map (·.text)).getD (Sst.fallback n) :=
   Sst.getStr_spec i n
 
+/-- a **live iterator** (Rows / Cols kept open across writes, loader calls and saves) returns, for a
+shared-string index, the item of the table **at read time** — the plain list after everything that
+happened since the iterator was created — not the table at creation time: `Rows.Columns` / `Cols.Rows`
+fetch the table on every call and hold no table state (tied by the `siter` lines of the live-iterator
+tokens `slo`/`sln`; seeded change C12a/2, which caches the table on the iterator, shows up as
+transcript differences) -/
+theorem live_iterator_reads_current_table (st : Sst.St) (i : Sst.Inv st) (between : List Sst.Op) (n : Nat) :
+    (Sst.step (Sst.run st between).1 (.get n)).2 =
+      .str ((((Sst.Spec.run (Sst.abs st) between).1[n]?).map (·.text)).getD (Sst.fallback n)) := by
+  have r := Sst.run_refines between i
+  have s := Sst.step_refines r.2.2 (.get n)
+  rw [s.2.2, r.2.1]
+  rfl
+
 /-- the first string write after numeric-only reads of a spilled table appends to the *real* table:
 witness of the C12b/1 / C02a/2 class (a placeholder table that survives the loader) being excluded -/
 theorem first_write_after_numeric_read :
     (Sst.run { part := [⟨some "a", "a"⟩, ⟨some "b", "b"⟩], spilled := true, inPkg := false }
       [.read, .set "c" "c", .get 0, .get 2]).2 = [.none, .idx 2, .str "a", .str "c"] := by decide
+
+/-! ## the zip entry list of a saved package (writeToZip: Pkg branch and temp branch) -/
+
+/-- Pkg keys are unique after every successful open -/
+theorem open_pk (l : Limits) (es : List Entry) (st : St) (h : openReader l es = .ok st) : PK st := by
+  unfold openReader at h
+  cases hc : checkOptions l with
+  | none => simp [hc] at h
+  | some l' =>
+    simp only [hc] at h
+    have pk := readZip_pk l' es {} 0 0 List.nodup_nil
+    cases hr : readZip l' {} 0 0 es with
+    | ok s w => rw [hr] at h pk; injection h with h; subst h; exact pk
+    | sizeErr s => rw [hr] at h; simp at h
+    | readErr s => rw [hr] at h; simp at h
+    | panic s => rw [hr] at h; cases h
+
+/-- `saved_zip_no_duplicates`: for every package, every limit pair and every history of modelled
+operations, a save writes **no two entries with the same name** — whatever was spilled, promoted,
+rewritten or deleted before (the Pkg branch lists each Pkg key once, the temp branch only names that
+are spilled and not in Pkg) -/
+theorem saved_zip_no_duplicates (l : Limits) (es : List Entry) (st : St) (h : openReader l es = .ok st)
+    (ops : List Op) (w : Map Blob) (s : Blob) (o : Map Blob) :
+    (AMap.keys (save (run st ops).1 w s o).2).Nodup :=
+  (save_zip_struct (run_inv ops (open_establishes_inv l es st h))
+    (run_pk ops (open_establishes_inv l es st h) (open_pk l es st h)) w s o).1
+
+/-- `saved_zip_lookup`: in every reachable state the entry written for a name is the Pkg content if Pkg
+has the name, else — for a name that is only spilled — the bytes of its temp file, else nothing:
+**no orphan entry** (every listed name is a Pkg key or a tempFiles key) and **nothing missing** -/
+theorem saved_zip_lookup (l : Limits) (es : List Entry) (st : St) (h : openReader l es = .ok st)
+    (ops : List Op) (w : Map Blob) (s : Blob) (o : Map Blob) (n : String) :
+    AMap.load (save (run st ops).1 w s o).2 n =
+      match AMap.load (saveMid (run st ops).1 w s o).pkg n with
+      | some b => some b
+      | none => if n ∈ AMap.keys (saveMid (run st ops).1 w s o).temp
+                then some ((absAt (saveMid (run st ops).1 w s o) n).getD emptyBlob) else none :=
+  (save_zip_struct (run_inv ops (open_establishes_inv l es st h))
+    (run_pk ops (open_establishes_inv l es st h) (open_pk l es st h)) w s o).2 n
+
+/-- `saved_zip_refines_map` (partial — explicit extra hypothesis `NoStaleEmpty`: no part is held as an
+*empty* Pkg entry while a temp file with other bytes exists for it; true in every reachable state but
+not proved): the package written by a save after any admissible history lists, for every part name,
+exactly the bytes of the limit-free plain map after that save; hence the same entries under every
+limit pair -/
+theorem saved_zip_refines_map_partial (l : Limits) (es : List Entry) (st : St) (h : openReader l es = .ok st)
+    (ops : List Op) (adm : AdmAll { m := Spec.parts es [] } ops) (w : Map Blob) (s : Blob) (o : Map Blob)
+    (a : Adm (Spec.run { m := Spec.parts es [] } ops).1 (.save w s o))
+    (ne : NoStaleEmpty (saveMid (run st ops).1 w s o)) (n : String) (hn : n ≠ sstKey) :
+    AMap.load (save (run st ops).1 w s o).2 n =
+      AMap.load (Spec.step (Spec.run { m := Spec.parts es [] } ops).1 (.save w s o)).1.m n :=
+  save_zip_refines_partial (store_refines_map l es st h ops adm).1
+    (run_pk ops (open_establishes_inv l es st h) (open_pk l es st h)) w s o a ne n hn
 
 /-! ## DeleteSheet after a spilled open -/
 
